@@ -1,6 +1,6 @@
 #!/bin/bash
 # setup: builds the harness offline from files on disk, runs the reference model's self-test and
-# warms the build cache for the variants the checks use (race build for C09, GOARCH=386 for C20,
+# warms the build cache for the variants the checks use (race build for C09, GOARCH=386 and js/wasm for the checks with a second platform,
 # fitgen for C19/C20).
 set -e
 cd "$(dirname "$0")/.."
@@ -11,6 +11,7 @@ MOD=$(mktemp /tmp/verif-setup.XXXXXX.mod)
 sed "s#=> /repo#=> $REPO#" harness/go.mod > "$MOD"; cp harness/go.sum "${MOD%.mod}.sum"
 (cd harness && go build -race -tags verif -modfile="$MOD" -o /dev/null ./cmd/vcheck) || echo "setup: race build failed (C09 will report it)"
 (cd harness && GOARCH=386 go build -tags verif -modfile="$MOD" -o /dev/null ./cmd/vcheck) || echo "setup: 386 build unavailable (C20 will skip that part)"
+(cd harness && GOOS=js GOARCH=wasm go build -tags verif -modfile="$MOD" -o /dev/null ./cmd/c14wasm && GOOS=js GOARCH=wasm go build -tags verif -modfile="$MOD" -o /dev/null ./cmd/c17wasm) || echo "setup: js/wasm build unavailable (C14/C17 will skip that part)"
 (cd "$REPO" && go build -o /dev/null ./cmd/fitgen && go build -tags verif -o /dev/null ./cmd/fitgen) || echo "setup: fitgen build failed (C19/C20 will report it)"
 rm -f "$MOD" "${MOD%.mod}.sum"
 echo "setup done"
